@@ -98,6 +98,7 @@ type FT struct {
 	nconst  int
 	ssorts  map[string]string // state var -> sort
 	unsupp  []string
+	dropped []string // callee postconditions that could not be interpreted at a call site and were not assumed
 	assumed map[string]bool // external contracts used
 	havoced map[string]bool // external calls with no spec
 	inlined map[string]bool
@@ -716,6 +717,13 @@ func (ft *FT) typeInv(term string, t types.Type, st *State) {
 	switch u := t.Underlying().(type) {
 	case *types.Basic, *types.Struct:
 		ft.valueInv(term, t, 0)
+		if st != nil {
+			ft.closedMaps(term, t, st)
+		}
+	case *types.Map:
+		if st != nil {
+			ft.closedMaps(term, t, st)
+		}
 	case *types.Pointer:
 		nx := ft.stateGet(ft.entry, "$next", "Int")
 		ft.fact(fmt.Sprintf("(and (<= 0 %s) (< %s %s))", term, term, nx))
@@ -728,6 +736,33 @@ func (ft *FT) typeInv(term string, t types.Type, st *State) {
 					f := "(" + si.Fields[i] + " (select " + h + " " + term + "))"
 					ft.fact(fmt.Sprintf("(and (<= 0 %s) (< %s %s))", f, f, nx))
 				}
+			}
+		}
+	}
+}
+
+// closedMaps: the entry heap is closed also through Go maps held (directly or in a struct field) by a parameter: a pointer
+// stored as a map value refers to a cell allocated before the function was entered.
+func (ft *FT) closedMaps(term string, t types.Type, st *State) {
+	switch u := t.Underlying().(type) {
+	case *types.Map:
+		if _, ok := u.Elem().Underlying().(*types.Pointer); !ok {
+			return
+		}
+		_, _, cell := ft.g.mapSorts(u)
+		h := ft.stateGet(st, "M|"+cell, "(Array Int "+cell+")")
+		nx := ft.stateGet(ft.entry, "$next", "Int")
+		ks := ft.g.reg.SortOf(u.Key())
+		v := fmt.Sprintf("(select (%s.val (select %s %s)) k)", cell, h, term)
+		ft.fact(fmt.Sprintf("(forall ((k %s)) (! (=> (select (%s.dom (select %s %s)) k) (and (<= 0 %s) (< %s %s))) :pattern (%s)))", ks, cell, h, term, v, v, nx, v))
+	case *types.Struct:
+		si := ft.g.reg.structs[ft.g.reg.SortOf(t)]
+		if si == nil {
+			return
+		}
+		for i, fty := range si.FTypes {
+			if _, ok := fty.Underlying().(*types.Map); ok {
+				ft.closedMaps("("+si.Fields[i]+" "+term+")", fty, st)
 			}
 		}
 	}
